@@ -443,6 +443,21 @@ func run(c *core.Case, st *core.CaseStats, seed int64) {
 			if g1 != want || g2 != want || g3 != want {
 				rep("Hmac:"+name, "value", in, want, []string{g1, g2, g3})
 			}
+			// the caller's key buffer rewritten in place between two calls (a reused key buffer), data buffer likewise
+			if kl > 0 {
+				key[rng.Intn(kl)] ^= 0x5a
+				if n > 0 {
+					d[rng.Intn(n)] ^= 0x33
+				}
+				m2 := hmac.New(hasher(name), key)
+				m2.Write(d)
+				want2 := hex.EncodeToString(m2.Sum(nil))
+				h1 := string(hashz.Hmac(key, d, hasher(name)))
+				h2 := string(hashz.Hmac(string(key), string(d), hasher(name)))
+				if h1 != want2 || h2 != want2 {
+					rep("Hmac:"+name, "value", in, map[string]string{"after the key buffer was changed in place": want2}, []string{h1, h2})
+				}
+			}
 		})
 	case "base64":
 		encName, n, bad := argS(c, 0), argI(c, 1), argS(c, 2)
